@@ -460,6 +460,73 @@ func StructureExhaustive(target string, s, listMax int, pairs bool, pairCap int)
 	}}
 }
 
+// ---------------------------------------------------------------- family F
+
+// NestedLists is family F: records whose lists, at every nesting level, take
+// every combination of lengths from a menu (outer element i gets inner length
+// pattern[i]), so that "an element with several inner elements followed by
+// another non-empty element" and the like are all present.
+func NestedLists(target string, lens []int) Family {
+	return Family{Name: "F-" + target, Gen: func(c *fw.Ctx, emit Emit) {
+		t := sut.Get(target)
+		root := t.Schema()
+		// every assignment of (outer length, inner length for first outer
+		// element, inner length for the other outer elements)
+		k := 0
+		for _, outer := range lens {
+			for _, in0 := range lens {
+				for _, inRest := range lens {
+					f := &gen.Filler{}
+					build := func(null bool) refpq.Val { return nestedRecord(root, outer, in0, inRest, null, f) }
+					recs := []refpq.Val{build(false), build(true), build(false)}
+					emit(fmt.Sprintf("o%d|i%d|r%d|p0", outer, in0, inRest), t, recs, []int{3}, 0, sut.Snappy)
+					emit(fmt.Sprintf("o%d|i%d|r%d|p1", outer, in0, inRest), t, recs[:2], []int{1, 1}, 1, sut.Uncompressed)
+					k++
+				}
+			}
+		}
+	}}
+}
+
+func nestedRecord(root *refpq.Node, outer, in0, inRest int, nullOpt bool, f *gen.Filler) refpq.Val {
+	var inner func(x *refpq.Node, depth, idx int) refpq.Val
+	var node func(x *refpq.Node, depth, idx int) refpq.Val
+	inner = func(x *refpq.Node, depth, idx int) refpq.Val {
+		if x.Leaf {
+			return refpq.Val{Leaf: f.Next(x.GoKind)}
+		}
+		out := refpq.Val{Group: make([]refpq.Val, len(x.Children))}
+		for i, c := range x.Children {
+			out.Group[i] = node(c, depth, idx)
+		}
+		return out
+	}
+	node = func(x *refpq.Node, depth, idx int) refpq.Val {
+		switch x.Rep {
+		case refpq.Optional:
+			if nullOpt && x.Leaf {
+				return refpq.Val{Null: true}
+			}
+			return inner(x, depth, idx)
+		case refpq.Repeated:
+			l := outer
+			if depth > 0 {
+				l = inRest
+				if idx == 0 {
+					l = in0
+				}
+			}
+			out := refpq.Val{}
+			for k := 0; k < l; k++ {
+				out.List = append(out.List, inner(x, depth+1, k))
+			}
+			return out
+		}
+		return inner(x, depth, idx)
+	}
+	return inner(root, 0, 0)
+}
+
 // ---------------------------------------------------------------- selections
 
 // ForC01 returns the families of C01 (also reused by C02 and C16).
@@ -473,11 +540,21 @@ func ForC01(thorough bool) []Family {
 			ValueSweep("flat24", false),
 			ValueSweep("person", false),
 			LongRuns("mini", []int{8, 9, 504, 505}, true),
-			LongRuns("obool", []int{7, 8, 9, 63, 64, 65, 504, 505, 1000, 1001}, false),
+			LongRuns("obool", []int{7, 8, 9, 18, 27, 63, 64, 65, 504, 505, 1000, 1001}, false),
+			LongRuns("flat24", []int{8, 9, 16, 17}, false),
+			LongRuns("person", []int{8, 9, 16, 17}, false),
 			StructureExhaustive("person", 2, 2, true, 40),
-			StructureExhaustive("document", 3, 2, true, 60),
-			StructureExhaustive("repetition", 3, 2, true, 60),
-			StructureExhaustive("readme", 3, 2, true, 0),
+			StructureExhaustive("document", 5, 2, true, 60),
+			StructureExhaustive("repetition", 5, 2, true, 60),
+			StructureExhaustive("readme", 4, 2, true, 0),
+			StructureExhaustive("reqdeep", 3, 2, true, 0),
+			StructureExhaustive("samename", 3, 2, true, 0),
+			StructureExhaustive("nest3", 4, 2, true, 80),
+			NestedLists("document", []int{0, 1, 2, 3}),
+			NestedLists("repetition", []int{0, 1, 2, 3}),
+			NestedLists("person", []int{0, 1, 2, 3}),
+			NestedLists("nest3", []int{0, 1, 2, 3}),
+			NestedLists("readme", []int{0, 1, 2, 3}),
 		}
 	}
 	long := []int{7, 8, 9, 63, 64, 65, 503, 504, 505, 511, 512, 513, 1000, 1024, 4097}
@@ -497,6 +574,15 @@ func ForC01(thorough bool) []Family {
 		StructureExhaustive("repetition", 5, 2, true, 200),
 		StructureExhaustive("readme", 5, 2, true, 200),
 		StructureExhaustive("flat24", 2, 2, false, 0),
+		LongRuns("flat24", long, false),
+		StructureExhaustive("reqdeep", 4, 2, true, 0),
+		StructureExhaustive("samename", 4, 2, true, 0),
+		StructureExhaustive("nest3", 6, 2, true, 300),
+		NestedLists("document", []int{0, 1, 2, 3, 4, 9}),
+		NestedLists("repetition", []int{0, 1, 2, 3, 4, 9}),
+		NestedLists("person", []int{0, 1, 2, 3, 4, 9}),
+		NestedLists("nest3", []int{0, 1, 2, 3, 4, 9}),
+		NestedLists("readme", []int{0, 1, 2, 3, 4, 9}),
 	}
 }
 
@@ -529,6 +615,12 @@ func ForC03(thorough bool) []Family {
 			StructureExhaustive("readme", 5, 2, true, 200),
 			StructureExhaustive("mini", 5, 3, true, 0),
 			StructureExhaustive("flat3", 5, 3, true, 0),
+			StructureExhaustive("reqdeep", 3, 2, true, 0),
+			StructureExhaustive("samename", 3, 2, true, 0),
+			StructureExhaustive("nest3", 5, 2, true, 200),
+			NestedLists("document", []int{0, 1, 2, 3}),
+			NestedLists("repetition", []int{0, 1, 2, 3}),
+			NestedLists("nest3", []int{0, 1, 2, 3}),
 		}
 	}
 	return []Family{
@@ -538,6 +630,12 @@ func ForC03(thorough bool) []Family {
 		StructureExhaustive("readme", 7, 3, true, 500),
 		StructureExhaustive("mini", 7, 4, true, 600),
 		StructureExhaustive("flat3", 7, 4, true, 600),
+		StructureExhaustive("reqdeep", 4, 2, true, 0),
+		StructureExhaustive("samename", 4, 2, true, 0),
+		StructureExhaustive("nest3", 7, 2, true, 500),
+		NestedLists("document", []int{0, 1, 2, 3, 4, 9}),
+		NestedLists("repetition", []int{0, 1, 2, 3, 4, 9}),
+		NestedLists("nest3", []int{0, 1, 2, 3, 4, 9}),
 	}
 }
 
@@ -558,6 +656,16 @@ func MixedRecords(t *sut.Target, n int) []refpq.Val {
 	out := make([]refpq.Val, n)
 	for i := range out {
 		out[i] = patterned(t.Schema(), pats[i%len(pats)], i, f)
+	}
+	return out
+}
+
+// DenseRecords returns n records with every optional set and lists of length 1-2.
+func DenseRecords(t *sut.Target, n int) []refpq.Val {
+	f := &gen.Filler{}
+	out := make([]refpq.Val, n)
+	for i := range out {
+		out[i] = fullRecord(t.Schema(), 1+i%2, f)
 	}
 	return out
 }
